@@ -1252,3 +1252,40 @@ def wire_ids_derive_both(ctx, rule):
             derived = F.find(pat)
             hand = [p_ for p_ in F.bodies if re.search(r"^<jsonrpsee_types::params::%s<.*> as .*%s.*>::(serialize|deserialize)$" % (ty, tr_.split("<")[0]), p_)]
             R.check(bool(derived) and not hand, rule, "%s:%s-derived" % (ty, tr_.split("<")[0]), "%s for %s is the derived impl" % (tr_.split("<")[0], ty), "%s for %s is not the derived impl any more (%s): the serialiser and the deserialiser of the id no longer mirror each other, so an id can come back from the peer as a different key than the one that was stored" % (tr_.split("<")[0], ty, [short(h) for h in hand] or "no derived impl found"), None)
+
+
+def err_return_blocks(b):
+    """blocks in which the function's return place is given an `Err(..)` (by hand or by `?`)"""
+    errs = set()
+    for bi, blk in enumerate(b.blocks):
+        if bi not in b.reachable:
+            continue
+        for st in blk["st"]:
+            if st["s"] == "assign" and st["pl"]["l"] == 0 and not st["pl"].get("p") and st["rv"]["k"] == "agg" and st["rv"].get("variant") == "Err":
+                errs.add(bi)
+        t = blk["term"]
+        if t and t["t"] == "call" and t.get("dest") and t["dest"]["l"] == 0 and re.search(r"from_residual$", (op_const(t["f"]) or {}).get("fn", "")):
+            errs.add(bi)
+    return errs
+
+
+def awaited_error_leaves_function(b, c):
+    """(found, ok): the Err of the awaited call `c` leaves `b` as an Err on every path - through `?` or a hand-written
+    `match`/`if let Err`. found=False when the result is not inspected at all."""
+    vl, rb = awaited_value_local(b, c)
+    if vl is None:
+        return None, False
+    errs = err_return_blocks(b)
+    exits = {bi for bi, blk in enumerate(b.blocks) if blk["term"] and blk["term"]["t"] == "return"}
+    holders = follow_value(b, vl)
+    err_arms = []
+    for br in b.calls_to(r"Try.*::branch$"):
+        if any(arg_is_local(b, br.args[0], h) for h in holders):
+            for sb, arms, other in flow.switch_on(b, br.dest["l"]):
+                if arms.get("1") is not None:
+                    err_arms.append(arms["1"])
+    for sb, arms, other in flow.switch_on(b, vl):
+        if arms.get("1") is not None:
+            err_arms.append(arms["1"])
+    ok = bool(err_arms) and all(t in errs or flow.all_paths_pass(b, t, errs, exits) for t in err_arms)
+    return bool(err_arms), ok
